@@ -77,9 +77,14 @@ def observe(case):
     impl.clear_caches()
     root = live.obj(case["root"])
     try:
-        nodes = with_alarm(10, lambda: list(graph.static_order(root)))
+        try:
+            nodes = with_alarm(10, lambda: list(graph.static_order(root)))
+        except _Timeout:
+            # a stalled process on a loaded machine is not a hang of static_order: one retry, generously
+            impl.clear_caches()
+            nodes = with_alarm(120, lambda: list(graph.static_order(root)))
     except _Timeout:
-        return live, root, TimeoutError("static_order did not return within 10 s")
+        return live, root, TimeoutError("static_order did not return within 10 s (and 120 s on retry)")
     except Exception as e:  # noqa: BLE001
         return live, root, e
     return live, root, nodes
